@@ -13,6 +13,30 @@ Definition sa_consts (cap : Z) : list (string * Z) := [("NCapacity", cap); ("CAP
 Definition sa_state (x : Z) (v : Z) (l : list N) : state :=
   {| locals := [("filler", x); ("item#i", v)]; fields := []; arrays := [("_items", zs l)] |}.
 
+Definition sa_state_i (x : Z) (v : Z) (l : list N) : state :=
+  {| locals := [("filler", x); ("i", v)]; fields := []; arrays := [("_items", zs l)] |}.
+
+(* the same loop written with an index: Index i = 0; while (i < CAPACITY) { _items[i] = filler; ++i; } (the translator's counting loop over a one-byte counter) *)
+Lemma sa_fill_loop_i cap f (x : N) (a : list N) v0 : (x < 256)%N -> 1 <= cap <= 255 -> Z.of_nat (List.length a) = cap ->
+  exists v', exec leaf_ftable (sa_consts cap) (S (S f)) (sa_state_i (Z.of_N x) v0 a)
+                  (SForRange "i" TU8 (ECast TU8 (EInt 0)) (ECast TS32 (EConst "CAPACITY")) (SSetElem "_items" (EVar "i") (EVar "filler")))
+             = ONormal (sa_state_i (Z.of_N x) v' (map (fun _ => x) a)).
+Proof.
+  intros Hx Hcap Hlen. rewrite exec_forrange. unfold sa_state_i, sa_consts.
+  cbn -[exec iter_range Z.of_nat Z.to_nat zs Z.sub Z.ltb Z.div Z.add Z.of_N conv]. repeat conv_step.
+  match goal with |- context[if ?c then OFault else _] => replace c with false by (symmetry; cbn; lia) end.
+  match goal with |- context[iter_range ?nn ?kk ?bd ?st] =>
+    assert (HU : forall k v l, 0 <= k < Z.of_nat (List.length l) ->
+                 bd k (sa_state_i (Z.of_N x) v l) = ONormal (sa_state_i (Z.of_N x) k (uset l (Z.to_N k) (fun _ => x))));
+    [|destruct (iter_range_upd bd (sa_state_i (Z.of_N x)) (fun _ _ => x) HU nn kk v0 a) as [v' E]] end.
+  - intros k v l Hk. unfold sa_state_i. sym_exec. norm_state. reflexivity.
+  - lia.
+  - lia.
+  - exists v'. unfold sa_state_i in E at 1. rewrite E.
+    replace (Z.to_nat (cap - 0)) with (List.length a) by lia.
+    change (Z.to_N 0) with 0%N. rewrite upd_range_const_all. reflexivity.
+Qed.
+
 (* the loop of fill(), shared by fill() and (inlined) by clear() *)
 Lemma sa_fill_loop cs f (x : N) (a : list N) v0 : (x < 256)%N -> (Z.of_nat (List.length a) <= 255) ->
   exists v', exec leaf_ftable cs (S (S f)) (sa_state (Z.of_N x) v0 a)
@@ -40,7 +64,8 @@ Proof.
   intros Hcap Hlen Hx. unfold run, init_locals, run_fuel, sa_obj.
   cbn [m_body m_params m_locals StaticArrayT_u8_5__fill combine map app].
   change 100%nat with (S (S 98)).
-  destruct (sa_fill_loop (sa_consts cap) 98 x a 0 Hx ltac:(lia)) as [v' E]. unfold sa_state in E at 1. rewrite E. reflexivity.
+  first [ destruct (sa_fill_loop (sa_consts cap) 98 x a 0 Hx ltac:(lia)) as [v' E]; unfold sa_state in E at 1; rewrite E; reflexivity
+        | destruct (sa_fill_loop_i cap 98 x a 0 Hx Hcap Hlen) as [v' E]; unfold sa_state_i in E at 1; rewrite E; reflexivity ].
 Qed.
 
 (* clear(): fill(filler<Item>()), and filler<uint8_t>() is 255 *)
@@ -51,8 +76,10 @@ Proof.
   cbn [m_body m_params m_locals StaticArrayT_u8_5__clear combine map app].
   change 100%nat with (S (S (S 97))). rewrite exec_seq, exec_local.
   cbn -[exec]. norm_state.
-  destruct (sa_fill_loop (sa_consts cap) 97 255%N a 0 ltac:(lia) ltac:(lia)) as [v' E]. unfold sa_state in E at 1.
-  change (Z.of_N 255) with 255 in E. rewrite E. reflexivity.
+  first [ destruct (sa_fill_loop (sa_consts cap) 97 255%N a 0 ltac:(lia) ltac:(lia)) as [v' E]; unfold sa_state in E at 1;
+          change (Z.of_N 255) with 255 in E; rewrite E; reflexivity
+        | destruct (sa_fill_loop_i cap 97 255%N a 0 ltac:(lia) Hcap Hlen) as [v' E]; unfold sa_state_i in E at 1;
+          change (Z.of_N 255) with 255 in E; rewrite E; reflexivity ].
 Qed.
 
 (* empty(): every item holds the filler value *)
@@ -62,10 +89,13 @@ Theorem src_StaticArray_empty cap (a : list N) : 1 <= cap <= 255 -> Z.of_nat (Li
 Proof.
   intros Hcap Hlen Ha. unfold run, init_locals, run_fuel, sa_obj.
   cbn [m_body m_params m_locals StaticArrayT_u8_5__empty combine map app].
-  change 100%nat with (S (S 98)). rewrite exec_seq, exec_forrange.
-  cbn -[exec iter_range Z.of_nat Z.to_nat zs Z.sub Z.ltb Z.div Z.add Z.of_N]. rewrite zs_length.
-  match goal with |- context[if ?c then OFault else _] => replace c with false by (symmetry; lia) end.
-  pose (mk := fun (v : Z) (l : list N) => {| locals := [("item#i", v)]; fields := []; arrays := [("_items", zs l)] |}).
+  change 100%nat with (S (S 98)). rewrite exec_seq.
+  (* the loop variable is whatever the source calls it (range-for: a hidden index; counted while: its counter) *)
+  lazymatch goal with |- context[SForRange ?v _ _ _ _] =>
+    pose (mk := fun (vv : Z) (l : list N) => {| locals := [(v, vv)]; fields := []; arrays := [("_items", zs l)] |}) end.
+  rewrite exec_forrange. unfold sa_consts.
+  cbn -[exec iter_range Z.of_nat Z.to_nat zs Z.sub Z.ltb Z.div Z.add Z.of_N conv mk]. repeat conv_step. rewrite ?zs_length.
+  match goal with |- context[if ?c then OFault else _] => replace c with false by first [symmetry; lia | symmetry; cbn; lia] end.
   match goal with |- context[iter_range ?nn ?kk ?bd ?st] =>
     assert (HF : forall k v, 0 <= k < Z.of_nat (List.length a) ->
                  bd k (mk v a) = if (uget a (Z.to_N k) =? 255)%N then ONormal (mk k a) else OReturn (mk k a) (Some 0));
@@ -77,7 +107,7 @@ Proof.
   - lia.
   - lia.
   - unfold mk in E at 1. rewrite E. clear E HF.
-    replace (Z.to_nat (Z.of_nat (Datatypes.length a) - 0)) with (List.length a) by lia.
+    match goal with |- context[Z.to_nat (?h - 0)] => replace (Z.to_nat (h - 0)) with (List.length a) by lia end.
     change (Z.to_N 0) with 0%N. pose proof (all_range_forallb (fun x => (x =? 255)%N) a []) as A. cbn [app List.length N.of_nat] in A. rewrite A.
     destruct (forallb (fun x : N => (x =? 255)%N) a); [|reflexivity].
     rewrite exec_return. cbn. reflexivity.
